@@ -129,6 +129,17 @@ def atom_language(atom, value, L, ab):
         t = atom[1]
         if t == L:
             dfa = S.lang_full(".+", ab)
+        elif t[0] == "slice" and t[1] == L:
+            # a slice of the line is non-empty iff the line is long enough
+            lo = t[2][1] if t[2] is not None and A.is_const(t[2]) else (
+                0 if t[2] is None else None)
+            hi = t[3][1] if t[3] is not None and A.is_const(t[3]) else (
+                None if t[3] is None else "?")
+            if lo is not None and hi != "?":
+                if lo >= 0 and (hi is None or hi > lo):
+                    dfa = S.lang_full(".{%d,}" % (lo + 1), ab)
+                elif lo < 0 and hi is None:
+                    dfa = S.lang_full(".+", ab)
         elif t[0] == "call" and t[1][0] == "attr" and t[1][1] == L \
                 and len(t[2]) == 1 and A.is_const(t[2][0]):
             c = t[2][0][1]
